@@ -23,7 +23,8 @@ Record case_C12 := mkCase {
   k_handle : bool;                          (* set_lifecycle_read_handle called *)
   k_lcs : list N;                           (* msg.lifecycle per message (canonical numbering) *)
   k_known : list bool;                      (* lifecycle present in the evmap table, per message *)
-  k_keeps : list (list bool)                (* keep_lifecycle(entry, msg.ecu, lifecycle of msg): [entry][message] *)
+  k_keeps : list (list bool);               (* keep_lifecycle(entry, msg.ecu, lifecycle of msg): [entry][message] *)
+  k_search : bool                           (* a `stream_search` with the set was run over the websocket (all-pass stream) *)
 }.
 
 Definition kind_of_N (k : N) : kind :=
@@ -84,6 +85,8 @@ Definition run_C12 (c : case_C12) : otree :=
   T [ o_stream (filter_as_streams mt fs msgs (option_map N.to_nat (k_budget c)));
       T [ob (filters_active sc); T (map (fun m => ob (match_filters mt sc m)) msgs)];
       T [T (map L (fst psn)); L (snd psn)];
-      exp ].
+      exp;
+      (* process_stream_search_params: the constructor loop (= build), then match_filters over the stream's messages *)
+      if k_search c then T [T (map L (matching_idxs mt sc msgs 0))] else T [] ].
 
 Definition agree_C12 : case_C12 -> otree -> bool := agree_det run_C12.
